@@ -847,7 +847,7 @@ def check_synthetic(ctx: Ctx, res: Result, with_model: bool):
     rng = ctx.rng
     c_get, c_view, c_wf, c_mal_get, c_mal_view = [], [], [], [], []
     c_gen, c_gen_mal = [], []
-    meta, meta_mal = [], []
+    meta, meta_mal, meta_gen, meta_gen_mal = [], [], [], []
     for origin, spec in synthetic_specs(ctx):
         sc = Scenario(spec)
         uid = Uids()
@@ -885,10 +885,12 @@ def check_synthetic(ctx: Ctx, res: Result, with_model: bool):
         meta.append(spec)
         for v in views:
             res.count("a.view_outcome", "exception" if v is None else "manifest")
-        if GEN_OK["ok"]:
+        if GEN_OK["ok"] and (not ctx.thorough or origin == "corpus" or len(meta) % 4 == 0):
             # the generated terms: the same queries, new ranks first or shuffled, on ONE metadata object
+            # (thorough tier: every fourth scenario - the literals are large)
             order = list(reversed(queries)) if len(c_gen) % 2 == 0 else rng.sample(queries, len(queries))
             c_gen.append(gen_views_case(sc.metadata, uid, order, False))
+            meta_gen.append(spec)
         # perturbed metadata: correspondence only (the well-formedness the theorems assume does not hold)
         if origin == "random" and rng.random() < 0.6:
             tag, md2 = perturb(rng, sc.metadata)
@@ -905,8 +907,9 @@ def check_synthetic(ctx: Ctx, res: Result, with_model: bool):
             c_mal_get.append((inp2, val(gets2)))
             c_mal_view.append((inp2, val(views2)))
             meta_mal.append((tag, spec))
-            if GEN_OK["ok"]:
+            if GEN_OK["ok"] and (not ctx.thorough or len(meta_mal) % 4 == 0):
                 c_gen_mal.append(gen_views_case(md2, uid2, q2, False))
+                meta_gen_mal.append((tag, spec))
     if not with_model:
         return
     ty = "Z * gman * list (Z * list path)"
@@ -922,8 +925,8 @@ def check_synthetic(ctx: Ctx, res: Result, with_model: bool):
         for i in bad:
             res.mismatches.append(Mismatch(name, {"case": mt[i], "input": cases[i][0][:1500]}, cases[i][1][:1500], None))
         res.traces_validated += len(cases)
-    run_gen(res, CORRESPONDENCES[6], "C07_gv", "obs_views_gen", c_gen, GEN_VIEWS_TY, meta, shard=20)
-    run_gen(res, CORRESPONDENCES[7], "C07_gmal", "obs_views_gen", c_gen_mal, GEN_VIEWS_TY, meta_mal, shard=20)
+    run_gen(res, CORRESPONDENCES[6], "C07_gv", "obs_views_gen", c_gen, GEN_VIEWS_TY, meta_gen, shard=20)
+    run_gen(res, CORRESPONDENCES[7], "C07_gmal", "obs_views_gen", c_gen_mal, GEN_VIEWS_TY, meta_gen_mal, shard=20)
 
 
 # =========================================================================== the generated terms (gen/ManifestOpsGen.v)
@@ -1235,7 +1238,7 @@ def check_generated_extra(ctx: Ctx, res: Result):
     rng = ctx.rng
     cases, meta = [], []
     entries = []
-    for _ in range(ctx.n(40, 400)):
+    for _ in range(ctx.n(40, 240)):
         md, queries, what = dtensor_metadata(rng)
         uid = Uids()
         knob = rng.random() < 0.3
@@ -1247,7 +1250,7 @@ def check_generated_extra(ctx: Ctx, res: Result):
         res.count("g.dtensor_mesh", what.split(":")[0])
         entries += [e for e in md.manifest.values() if type(e).__name__ == "DTensorEntry"][:2]
     rm_cases = []
-    for i in range(ctx.n(40, 400)):
+    for i in range(ctx.n(40, 240)):
         sc = Scenario(Gen(rng, rng.choice([1, 2, 3, 4])).spec())
         uid = Uids()
         got = string_level_perturb(rng, sc.metadata)
